@@ -655,10 +655,10 @@ func (e *Env) index(n *EIndex) TV {
 		if _, isStruct := u.Elem().Underlying().(*types.Struct); isStruct {
 			fn := "eaddr$" + typeShort(u.Elem())
 			vc.enc.declFun(fn, []string{sInt, sInt}, sInt)
-			return TV{S: "(" + fn + " (sl-arr " + x.S + ") (+ (sl-off " + x.S + ") " + i.S + "))", Sort: sInt, Ty: types.NewPointer(u.Elem())}
+			return TV{S: "(" + fn + " (sl-arr " + x.S + ") " + i.S + ")", Sort: sInt, Ty: types.NewPointer(u.Elem())}
 		}
 		comp, sort := vc.elemComp(u.Elem())
-		return TV{S: sel(sel(vc.cur(e.st, comp), "(sl-arr "+x.S+")"), "(+ (sl-off "+x.S+") "+i.S+")"), Sort: sort, Ty: u.Elem()}
+		return TV{S: sel(sel(vc.cur(e.st, comp), "(sl-arr "+x.S+")"), i.S), Sort: sort, Ty: u.Elem()}
 	case *types.Basic:
 		if u.Info()&types.IsString != 0 {
 			return TV{S: "(str.to_code (str.at " + x.S + " " + i.S + "))", Sort: sInt, Ty: types.Typ[types.Uint8]}
@@ -827,6 +827,23 @@ func (e *Env) call(n *ECall) TV {
 			cs = append(cs, eq(nw.S, od.S))
 		}
 		return TV{S: and(cs...), Sort: sBool, Ty: boolT}
+	case "keys", "keysPrefix":
+		xs := arg(0)
+		sl, ok := xs.Ty.Underlying().(*types.Slice)
+		if !ok {
+			e.fail("keys() of non-slice")
+		}
+		comp, es := vc.elemComp(sl.Elem())
+		n := "(sl-len " + xs.S + ")"
+		if id.Name == "keysPrefix" {
+			n = arg(1).S
+		}
+		return TV{S: vc.keysOf(es, sel(vc.cur(e.st, comp), "(sl-arr "+xs.S+")"), n), Sort: arraySort(es, sBool)}
+	case "seenset":
+		if e.seenComp == "" {
+			e.fail("seenset() outside a map-range loop")
+		}
+		return TV{S: vc.cur(e.st, e.seenComp), Sort: vc.compSort[e.seenComp]}
 	case "store":
 		a, k, v := arg(0), arg(1), arg(2)
 		if v.Sort == "nil" {
@@ -941,7 +958,9 @@ func (e *Env) heapVersion(sd *SpecDecl, se *Env) string {
 	vc := e.vc
 	var parts []string
 	if sd.Reads == nil {
-		parts = append(parts, fmt.Sprintf("e%d", e.st.epoch))
+		for _, k := range sortedKeys(e.st.ep) {
+			parts = append(parts, fmt.Sprintf("%s=e%d", k, e.st.ep[k]))
+		}
 		for _, k := range sortedKeys(e.st.comp) {
 			if k == "alloc" || strings.HasPrefix(k, "Seen$") {
 				continue
